@@ -143,7 +143,7 @@ def bounded(tier, seed):
     from metapype.model.node import Node
     b = Bounded("datasets with 1..3 spelled-out parties (creator / contact / associatedParty / personnel under project, with ids) and 0..3 referencing "
                 "parties (with and without a role after the references node), in all document orders of a small set; plus all placements of one "
-                "dangling reference or one duplicated id (between siblings, between an element and its ancestor, between an element and its descendant); expansion compared with an independent substitution model, validity before/after, "
+                "dangling reference or one duplicated id (between siblings, between an element and its ancestor, between an element and its descendant, between an element and a grandchild of a later / earlier sibling, between two cousins' grandchildren); expansion compared with an independent substitution model, validity before/after, "
                 "registry, independence")
     b.rule = "a case is one dataset tree; non-trivial = at least one reference"
     rnd = random.Random(seed)
@@ -152,7 +152,7 @@ def bounded(tier, seed):
     for nsrc in (1, 2):
         for nref in (0, 1, 2, 3):
             for order_seed in range(6 if tier == "quick" else 40):
-                for fault in (None, "dangling", "dup", "dup-ancestor", "dup-descendant"):
+                for fault in (None, "dangling", "dup", "dup-ancestor", "dup-descendant", "dup-deep-later", "dup-deep-earlier", "dup-deep-cousins"):
                     Node.store.clear()
                     ds = Node("dataset")
                     ds.add_child(Node("title", content="t"))
@@ -190,6 +190,21 @@ def bounded(tier, seed):
                     # creators must precede contacts for validity: sort children by the dataset rule order
                     order = {"title": 0, "creator": 1, "associatedParty": 2, "contact": 3}
                     ds._children.sort(key=lambda c: order.get(c.name, 9))
+                    if fault and fault.startswith("dup-deep"):
+                        # seeded/C16c: the second use of an id lies two or more levels below the nearest common ancestor of the two uses
+                        spelled = [c for c in ds.children if c.attributes.get("id") and c.children and c.children[0].children]
+                        if fault == "dup-deep-cousins":
+                            if len(spelled) < 2:
+                                continue
+                            spelled[0].children[0].children[0].add_attribute("id", "deep")
+                            spelled[-1].children[0].children[0].add_attribute("id", "deep")
+                        else:
+                            owner = spelled[-1] if fault == "dup-deep-later" else spelled[0]
+                            others = [c for c in ds.children if c.attributes.get("id") and c is not owner
+                                      and (ds.children.index(c) < ds.children.index(owner)) == (fault == "dup-deep-later")]
+                            if not others:
+                                continue
+                            owner.children[0].children[0].add_attribute("id", others[0].attributes["id"])
                     f = check_expand(ds, f"sources={nsrc} refs={nref} fault={fault}")
                     count += 1
                     b.note((nsrc, nref, order_seed, fault), nontrivial=nref > 0, sample={"sources": nsrc, "references": nref, "fault": fault})
